@@ -459,11 +459,112 @@ def check_rebuild(res, builder, style, idxs):
         res.violation("C04|%s|rebuild-after-param-reassignment|raises" % builder, "%s style=%s on %s raised %s: %s" % (builder, style, sys_str(idxs, rts), type(e).__name__, e), case, "EXC %s" % type(e).__name__, None)
 
 
+def check_symbols(res, idxs, perm):
+    """the alternative builder with caller-chosen symbols for the concentrations, handed in as a plain dict in another
+    order than the substances: equation i is d[names[i]]/dt written in the symbol chosen for names[i]"""
+    import sympy
+    from collections import OrderedDict
+    from chempy import Reaction, ReactionSystem, Substance
+    from chempy.kinetics.ode import _create_odesys
+
+    rts = [POOL[i] for i in idxs]
+    names = sorted({k for rt in rts for k in M.rt_keys(rt)})
+    order = [names[p % len(names)] for p in perm][: len(names)]
+    order = order + [n for n in names if n not in order]
+    case = dict(layer="H", what="symbols", idxs=list(idxs), perm=list(perm))
+    res.states += 1
+    res.transitions += 1
+    res.nontrivial += 1
+    res.evaluations += 1
+    try:
+        rxns = []
+        for j, rt in zip(idxs, rts):
+            reac, prod, ir, ip = M.rt_dicts(rt)
+            rxns.append(Reaction(reac, prod, _kname(j), inact_reac=ir or None, inact_prod=ip or None))
+        rsys = ReactionSystem(rxns, OrderedDict((k, Substance(k)) for k in names[::-1]))
+        chosen = {k: sympy.Symbol("c_" + k) for k in order}  # a plain dict, its own order
+        odesys = _create_odesys(rsys, substance_symbols=chosen)[0]
+        conc = {"A": 5, "B": 7, "C": 11}
+        bad = None
+        if list(odesys.names) != names[::-1]:
+            bad = "names %r, substance order %r" % (list(odesys.names), names[::-1])
+        else:
+            for i, n in enumerate(odesys.names):
+                if odesys.dep[i] != chosen[n]:
+                    bad = "dependent variable %d is named %r but carries the symbol %s" % (i, n, odesys.dep[i])
+                    break
+        if bad is None:
+            kv = {_kname(j): KFREE[j] for j in idxs}
+            bind = {chosen[n]: conc[n] for n in names}
+            for sym, pn in zip(odesys.params, odesys.param_names):
+                bind[sym] = kv.get(pn, sympy.Symbol("UNBOUND"))
+            model = M.system_rates(rts, [kv[_kname(j)] for j in idxs], conc, list(odesys.names))
+            got = [sympy.sympify(e).subs(bind) for e in odesys.exprs]
+            if [g - model[n] for g, n in zip(got, odesys.names)] != [0] * len(got):
+                bad = "right-hand side %r bound by the chosen symbols, model %r" % ([str(g) for g in got], [str(model[n]) for n in odesys.names])
+        res.outcomes["symbols-ok" if bad is None else "symbols-WRONG"] += 1
+        if bad:
+            res.violation("C04|_create_odesys|substance_symbols-plain-dict|equations-and-symbols-mismatched", "%s with substance_symbols given in order %r: %s" % (sys_str(idxs, rts), order, bad), case, bad, None)
+    except Exception as e:
+        res.outcomes["symbols-raises:%s" % type(e).__name__] += 1
+        res.violation("C04|_create_odesys|substance_symbols-plain-dict|raises", "%s with substance_symbols %r raised %s: %s" % (sys_str(idxs, rts), order, type(e).__name__, e), case, "EXC %s" % type(e).__name__, None)
+
+
+def check_constant_priority(res, which):
+    """a rate expression that reads the gas constant as a parameter: an explicit substitution of that key wins over the
+    `constants` object (its documented role is to supply keys NOT found in the substitutions)"""
+    import math
+    import numpy as np
+    from chempy import Reaction, ReactionSystem
+    from chempy.kinetics.ode import get_odesys
+    from chempy.kinetics.rates import MassAction
+    from chempy.units import default_constants
+
+    def _k(args, T, R, backend=math, **kwargs):
+        A, Ea = args
+        return A * backend.exp(-Ea / (R * T))
+
+    ArrhR = MassAction.from_callback(_k, argument_names=("A", "Ea"), parameter_keys=("temperature", "molar_gas_constant"))
+    A1, Ea1, A2, Ea2, T = 1e10, 40e3, 3e8, 25e3, 305.0
+    conc = {"A": 3.0, "B": 5.0, "C": 7.0}
+    myR = 8.0
+    Rdef = float(default_constants.molar_gas_constant.magnitude)
+    subs, consts, Rexp = {"constants-only": (None, default_constants, Rdef), "substitution-only": ({"molar_gas_constant": myR}, None, myR),
+                          "substitution+constants": ({"molar_gas_constant": myR}, default_constants, myR)}[which]
+    case = dict(layer="H", what="constants", which=which)
+    res.states += 1
+    res.transitions += 1
+    res.nontrivial += 1
+    res.evaluations += 1
+    try:
+        rsys = ReactionSystem([Reaction({"A": 1}, {"B": 1}, ArrhR([A1, Ea1])), Reaction({"B": 2}, {"C": 1}, ArrhR([A2, Ea2]))], "A B C")
+        odesys = get_odesys(rsys, include_params=True, substitutions=subs, constants=consts)[0]
+        y = [conc[k] for k in odesys.names]
+        p = [{"temperature": T}[k] for k in odesys.param_names]
+        got = np.asarray(odesys.f_cb(0.0, y, p), dtype=float).ravel()
+        q1 = A1 * math.exp(-Ea1 / (Rexp * T)) * conc["A"]
+        q2 = A2 * math.exp(-Ea2 / (Rexp * T)) * conc["B"] ** 2
+        ref = np.array([{"A": -q1, "B": q1 - 2 * q2, "C": q2}[k] for k in odesys.names])
+        ok = bool(np.allclose(got, ref, rtol=1e-10, atol=0))
+        res.outcomes["constant-priority-ok" if ok else "constant-priority-WRONG"] += 1
+        if not ok:
+            res.violation("C04|get_odesys|substitutions-vs-constants|%s|rhs-value" % which, "Arrhenius-with-R system, %s: f = %r, with R = %r it is %r" % (which, got.tolist(), Rexp, ref.tolist()), case, got.tolist(), ref.tolist())
+    except Exception as e:
+        res.outcomes["constant-priority-raises:%s" % type(e).__name__] += 1
+        res.violation("C04|get_odesys|substitutions-vs-constants|%s|raises" % which, "%s raised %s: %s" % (which, type(e).__name__, e), case, "EXC %s" % type(e).__name__, None)
+
+
 def run_chunk(chunk, tier):
     res = Result()
     t = _tier(tier)
     if chunk[0] == "H":
         i = chunk[1]
+        if i == 0:
+            for which in ("constants-only", "substitution-only", "substitution+constants"):
+                check_constant_priority(res, which)
+        for idxs in [(i,), (i, (i + 1) % len(POOL))]:
+            for perm in itertools.permutations(range(3)):
+                check_symbols(res, idxs, perm)
         for idxs in [(i,), (i, (i + 1) % len(POOL)), ((i + 2) % len(POOL), i)]:
             for builder in ("get", "create"):
                 for style in ("num", "named"):
@@ -496,7 +597,12 @@ def run_chunk(chunk, tier):
 def replay(case):
     res = Result()
     if case.get("layer") == "H":
-        check_rebuild(res, case["builder"], case["style"], tuple(case["idxs"]))
+        if case.get("what") == "symbols":
+            check_symbols(res, tuple(case["idxs"]), tuple(case["perm"]))
+        elif case.get("what") == "constants":
+            check_constant_priority(res, case["which"])
+        else:
+            check_rebuild(res, case["builder"], case["style"], tuple(case["idxs"]))
         if res.violations:
             v = res.violations[0]
             return dict(key=v["key"], what=v["what"], observed=v["observed"], expected=v["expected"])
